@@ -157,7 +157,7 @@ func (t *GoType) MarshalJSON() ([]byte, error) {
 
 // newGoType creates and registers a new GoType for the type of the given object.
 // This is NOT threadsafe. The caller must be holding goTypeMutex.
-func newGoType(typ reflect.Type) (*GoType, error) {
+func newGoType(typ reflect.Type) (_ *GoType, err error) {
 	// Return the existing type if it's already registered
 	if goType, ok := goTypeRegistry[typ]; ok {
 		return goType, nil
@@ -197,6 +197,15 @@ func newGoType(typ reflect.Type) (*GoType, error) {
 
 	// Add the new type to the registry before calling newGoType recursively
 	goTypeRegistry[typ] = goType
+
+	// Do not leave a half-built type behind when a field or method cannot be
+	// converted: the next lookup would return it without its attributes
+	defer func() {
+		if err != nil {
+			delete(goTypeRegistry, typ)
+			delete(goTypeRegistry, indirectType)
+		}
+	}()
 
 	// Register the indirect type as well (recursive call!)
 	indirectGoType, err := newGoType(indirectType)
